@@ -113,9 +113,46 @@ fn cmd_c12probe(req: &Value) -> Value {
     }
 }
 
+// c12fmt {src}: prql_to_pl -> pl_to_prql with the compiler's debug log on; answers the formatted text and, when the tree has the
+// hook `verif:fmt-calls`, the number of invocations of <pr::Expr as WriteSource>::write it reports ("calls": null otherwise)
+fn cmd_c12fmt(req: &Value) -> Value {
+    let src = crate::s(req, "src").to_string();
+    let _ = prqlc::debug::log_finish();
+    prqlc::debug::log_start();
+    let r = crate::guarded(|| match prqlc::prql_to_pl(&src) {
+        Ok(pl) => match prqlc::pl_to_prql(&pl) {
+            Ok(t) => json!({ "ok": t }),
+            Err(e) => crate::errs(e),
+        },
+        Err(e) => crate::errs(e),
+    });
+    let log = prqlc::debug::log_finish();
+    let mut calls = Value::Null;
+    if let Some(log) = log {
+        if let Ok(v) = serde_json::to_value(&log) {
+            if let Some(es) = v.get("entries").and_then(|e| e.as_array()) {
+                for e in es {
+                    let text = e.get("kind").and_then(|k| k.get("Message")).and_then(|m| m.get("text")).and_then(|t| t.as_str());
+                    if let Some(t) = text {
+                        if let Some(j) = t.strip_prefix("verif:fmt-calls ") {
+                            if let Ok(v) = serde_json::from_str::<Value>(j) {
+                                calls = v.get("expr_writes").cloned().unwrap_or(Value::Null);
+                            }
+                        }
+                    }
+                }
+            }
+        }
+    }
+    let mut out = r;
+    out["calls"] = calls;
+    out
+}
+
 pub fn dispatch(cmd: &str, req: &Value) -> Option<Value> {
     match cmd {
         "c12probe" => Some(cmd_c12probe(req)),
+        "c12fmt" => Some(cmd_c12fmt(req)),
         _ => None,
     }
 }
